@@ -2854,6 +2854,12 @@ class SFTPClientHandler(SFTPHandler):
                 name = resp.get_string()
                 data = resp.get_string()
                 rcvd_extensions.append((name, data))
+
+            self.logger.debug1('Received version=%d%s', version,
+                               ', extensions:' if rcvd_extensions else '')
+
+            # This parses the data of the extensions it knows about
+            self._log_extensions(rcvd_extensions)
         except PacketDecodeError as exc:
             raise SFTPBadMessage(str(exc)) from None
         except SFTPError:
@@ -2862,11 +2868,6 @@ class SFTPClientHandler(SFTPHandler):
             raise SFTPConnectionLost(str(exc)) from None
         except (asyncio.IncompleteReadError, Error) as exc:
             raise SFTPConnectionLost(str(exc)) from None
-
-        self.logger.debug1('Received version=%d%s', version,
-                           ', extensions:' if rcvd_extensions else '')
-
-        self._log_extensions(rcvd_extensions)
 
         self._version = version
 
@@ -7062,17 +7063,18 @@ class SFTPServerHandler(SFTPHandler):
                     rcvd_extensions.append((name, data))
             else:
                 packet.check_end()
+
+            self.logger.debug1('Received init, version=%d%s', version,
+                               ', extensions:' if rcvd_extensions else '')
+
+            # This parses the data of the extensions it knows about
+            self._log_extensions(rcvd_extensions)
         except PacketDecodeError as exc:
             await self._cleanup(SFTPBadMessage(str(exc)))
             return
         except Error as exc:
             await self._cleanup(exc)
             return
-
-        self.logger.debug1('Received init, version=%d%s', version,
-                           ', extensions:' if rcvd_extensions else '')
-
-        self._log_extensions(rcvd_extensions)
 
         # Don't agree to a version older than the oldest one implemented
         self._version = max(min(version, self._version), MIN_SFTP_VERSION)
